@@ -1,6 +1,7 @@
 //! Simulator-owned stubs for E1/pull: scripted pulls, streams, futures, inner iterables, a push and
 //! a sink. All scripts are drawn *before* the run starts (plain data), so the stubs never draw from
 //! the `Sim` themselves; what they observe is reported through the thread-local run state [`Rt`].
+#![allow(dead_code)]
 
 use std::cell::{Cell, RefCell};
 use std::collections::VecDeque;
